@@ -214,6 +214,9 @@ class C04Monitor(BookTracker):
                     self.returned_by[id(o)] = (o, ev["agent"].agent_id)
         elif k == "hostile":
             self.hostile.append(ev)
+        elif k == "refused_ret":
+            if ev["mkt"].market_id in self.books:
+                self._book_vs_live(ev["mkt"], self.book(ev["mkt"]), "after-refused-request")
         elif k == "time_call":
             self.in_clock.add(ev["mkt"].market_id)
             self.exp_logs[ev["mkt"].market_id] = []
